@@ -19,6 +19,7 @@ from __future__ import annotations
 import sys
 import unicodedata
 from abc import abstractmethod
+from fractions import Fraction
 from functools import reduce
 from itertools import chain, groupby
 from numbers import Rational
@@ -124,13 +125,19 @@ class Term(ItemSequenceT[T]):
         # optimize a common case:
         if len(_items) == 1:
             (elem, exp) = _items[0]
-            if isinstance(elem, Rational) or elem.is_base_elem():
+            if isinstance(elem, Rational):
+                if exp == 1:
+                    self._normalized = self
+            elif elem.is_base_elem():
                 self._normalized = self
 
     def _reduce_items(self, items: ItemIterableT[T],
                       n_items: Optional[int] = None,
                       keep_item_order: bool = True) -> ItemTupleT[T]:
         if n_items == 1:  # already reduced
+            (elem, exp), = items = tuple(items)
+            if isinstance(elem, Rational) and exp != 1:
+                items = ((_num_pow(elem, exp), 1),)
             return tuple(_filter_items(items))
         if n_items == 2:
             elem1: ElemT[T]
@@ -139,7 +146,8 @@ class Term(ItemSequenceT[T]):
             # most relevant case: numeric + non-numeric element
             if isinstance(elem1, Rational) and \
                     not isinstance(elem2, Rational):
-                return tuple(_filter_items(((elem1, exp1), (elem2, exp2))))
+                return tuple(_filter_items(((_num_pow(elem1, exp1), 1),
+                                            (elem2, exp2))))
             # second most relevant case: 2 non-numeric elements
             if not isinstance(elem1, Rational) and \
                     not isinstance(elem2, Rational):
@@ -171,10 +179,12 @@ class Term(ItemSequenceT[T]):
             # third most relevant case: non-numeric + numeric element
             if isinstance(elem2, Rational) and \
                     not isinstance(elem1, Rational):
-                return tuple(_filter_items(((elem2, exp2), (elem1, exp1))))
+                return tuple(_filter_items(((_num_pow(elem2, exp2), 1),
+                                            (elem1, exp1))))
             # least relevant case: 2 numeric elements
             if isinstance(elem1, Rational) and isinstance(elem2, Rational):
-                num: Rational = elem1 ** exp1 * elem2 ** exp2
+                num: Rational = (_num_pow(elem1, exp1) *
+                                 _num_pow(elem2, exp2))
                 if num != 1:
                     return (num, 1),
         # more than 2 items or number of items unknown:
@@ -227,7 +237,7 @@ class Term(ItemSequenceT[T]):
             else:  # numerical elements
                 group_it = cast(Iterator[Tuple[int, Tuple[Rational, int]]],
                                 group_it)
-                num_elem = reduce(mul, (elem ** exp
+                num_elem = reduce(mul, (_num_pow(elem, exp)
                                         for _, (elem, exp) in group_it),
                                   num_elem)
         if num_elem != 1:
@@ -270,7 +280,7 @@ class Term(ItemSequenceT[T]):
             pass
         else:
             if isinstance(elem, Rational):
-                return cast(Rational, elem ** exp)
+                return _num_pow(elem, exp)
         return None
 
     def split(self, dflt_num: Rational = ONE) \
@@ -408,6 +418,13 @@ class Term(ItemSequenceT[T]):
 
 
 # helper functions
+
+def _num_pow(elem: Rational, exp: int) -> Rational:
+    # int ** negative int would give a float, so use a Fraction instead
+    if exp < 0 and isinstance(elem, int):
+        elem = Fraction(elem)
+    return cast(Rational, elem ** exp)
+
 
 def _filter_items(items: ItemIterableT[T]) \
         -> Generator[ItemT[T], None, None]:
